@@ -49,9 +49,35 @@ def check(case):
     from synkit.CRN.Hypergraph.conversion import hypergraph_to_bipartite
 
     net = ec.parse_net(case)
-    names = ec.SPECIES
     scheme = SCHEMES[zlib.crc32(case.encode()) % 3]
     H = ec.build_hypergraph(net, rules=scheme[0][: len(net)] if scheme[0] else None, ids=scheme[1][: len(net)] if scheme[1] else None)
+    return judge(H, net)
+
+
+def check_edit(case):
+    """analyse, edit the same object in place, analyse again"""
+    from mc import edit_layer as el
+
+    net = ec.parse_net(case["net"])
+    H = ec.build_hypergraph(net)
+    judge(H, net)
+    net2 = el.apply_edit(H, net, case["edit"])
+    if not net2:
+        return Outcome(skipped="network_became_empty")
+    out = judge(H, net2)
+    for f in out.fails:
+        f.tag = "after_edit_" + f.tag
+    return out
+
+
+def judge(H, net):
+    from synkit.CRN.Petri.structure import find_siphons, find_traps
+    from synkit.CRN.Petri.analyzer import PetriAnalyzer
+    from synkit.CRN.Petri.net import PetriNet
+    from synkit.CRN.Path.realizability import PathwayRealizability, hypergraph_to_pr_inputs
+    from synkit.CRN.Hypergraph.conversion import hypergraph_to_bipartite
+
+    names = ec.SPECIES
     used = sorted({names[i] for l, r in net for i in range(len(l)) if l[i] or r[i]})
     rx = [({names[i] for i, c in enumerate(l) if c}, {names[i] for i, c in enumerate(r) if c}) for l, r in net]
     fails = []
@@ -185,7 +211,13 @@ def _setup_thorough():
 
 
 def subchecks(tier, seed):
-    return [Sub("networks", gen, check, key=lambda c: c, rule=RULE[tier], setup=_setup_quick if tier == "quick" else _setup_thorough)]
+    from mc import edit_layer as el
+
+    st = _setup_quick if tier == "quick" else _setup_thorough
+    return [
+        Sub("networks", gen, check, key=lambda c: c, rule=RULE[tier], setup=st),
+        Sub("edited", lambda t, s: el.gen_edits(t), check_edit, key=lambda c: f"{c['net']} / {c['edit']}", setup=st, rule="analyse, edit in place (replace a reaction under the same id / remove a species), analyse again; all such edits of every 2-reaction unit-coefficient network up to permutation (quick: 1 in 4 of the replacements)"),
+    ]
 
 
 def run(tier, seed):
